@@ -365,6 +365,10 @@ func init() {
 		w.mode = flags & 0xff
 		w.subFaults = (flags >> 8) & 0xff
 		w.ncoro++
+		// the coroutine starts at an arbitrary instant (not at time zero)
+		if len(w.times) == 0 {
+			w.advanceTime(ex)
+		}
 		return ex.coroValue(&CoroObj{id: w.ncoro})
 	})
 	vx("AutoO2", func(ex *Exec, fr *Frame, a []Value, s ssa.Instruction) Value {
